@@ -20,6 +20,8 @@ const modPath = "github.com/mholt/caddy-l4"
 
 // Ctx is the loaded, type-checked and SSA-converted program.
 type Ctx struct {
+	callSites map[*ssa.Function][]ssa.CallInstruction
+	fnEscapes map[*ssa.Function]bool
 	Repo    string
 	Tier    string
 	Fset    *token.FileSet
